@@ -8,6 +8,8 @@ import SnowModel.Ops.Topology
 import SnowModel.Ops.Seeds
 import SnowModel.Ops.SnowingObj
 import SnowModel.Ops.Frames
+import SnowModel.Ops.FlakeStats
+import SnowModel.Ops.Flake
 
 open Lean Snow
 
@@ -18,6 +20,8 @@ def allOps : List (String × Op) :=
   ++ Snow.Ops.seedsOps
   ++ Snow.Ops.snowingObjOps
   ++ Snow.Ops.framesOps
+  ++ Snow.Ops.flakeStatsOps
+  ++ Snow.Ops.flakeOps
 
 def handle (line : String) : String :=
   match Json.parse line with
